@@ -1,6 +1,7 @@
 package ctl
 
 import (
+	"strings"
 	"context"
 	"crypto/ed25519"
 	"errors"
@@ -145,6 +146,20 @@ func (w *World) checkC29(res *scriptedResolver) {
 	for hi, h := range hosts {
 		owner := w.clients[hi%len(w.clients)]
 		name, target := content(owner, h)
+		if r.Chance(0.3) {
+			// a record that looks like a client's target but is not it (a name below it, its parent, a longer
+			// first label): it proves nothing for anybody
+			switch r.Intn(3) {
+			case 0:
+				res.answers[name] = "www." + target
+			case 1:
+				res.answers[name] = target[strings.Index(target, ".")+1:]
+			default:
+				res.answers[name] = "x" + target
+			}
+			simrt.Probe("near-miss-record")
+			continue
+		}
 		res.answers[name] = target
 		allow(h, owner)
 		if r.Chance(0.5) && len(w.clients) > 1 {
